@@ -51,8 +51,8 @@ reg("acc_pad_pos", "dec", ["C04", "C05"], tier=T, cap=1200,
     bounds="PAD + 0..=3 pads at a symbolic position 0..=1554, optionally one pad corrupted by a symbolic delta", encodes=[DEC + "decode_ascii", DEC + "derandomize_253_state"])
 reg("acc_ascii_eci", "dec", ["C04"], tier=T, cap=1200,
     bounds="ASCII char, ECI codeword, one-codeword designator, two ASCII chars, all symbolic", encodes=[DEC + "decode_ascii", DEC + "read_eci"])
-reg("parts_macro05", "dec", ["C16", "C04", "C01"], cap=3600, mem_gb=28, tier=T, role="attempt", stubbing=True, bounds="decode_parts on [236, two arbitrary ASCII codewords 1..=128]: header + body + RS EOT; all six mode decoders stubbed (ASCII by a plain-character model)", encodes=[DEC + "decode_parts", DEC + "decode_ascii"])
-reg("parts_macro06_fnc1", "dec", ["C16", "C04", "C01"], cap=3600, mem_gb=28, tier=T, role="attempt", stubbing=True, bounds="decode_parts on [237, 2 ASCII codewords], [232, 1 ASCII codeword], [236] alone; same stubs", encodes=[DEC + "decode_parts", DEC + "decode_ascii"])
+reg("parts_macro05", "dec", ["C16", "C04", "C01"], cap=1500, mem_gb=24, tier=T, role="attempt", stubbing=True, bounds="decode_parts on [236, two arbitrary ASCII codewords 1..=128]: header + body + RS EOT; all six mode decoders stubbed (ASCII by a plain-character model)", encodes=[DEC + "decode_parts", DEC + "decode_ascii"])
+reg("parts_macro06_fnc1", "dec", ["C16", "C04", "C01"], cap=1500, mem_gb=24, tier=T, role="attempt", stubbing=True, bounds="decode_parts on [237, 2 ASCII codewords], [232, 1 ASCII codeword], [236] alone; same stubs", encodes=[DEC + "decode_parts", DEC + "decode_ascii"])
 reg("oracle_c40_rt", "dec", ["C04"], cap=300, role="oracle-validation",
     bounds="reference C40/Text encoder -> reference decoder, 2 symbolic chars", encodes=[])
 reg("oracle_edifact_rt", "dec", ["C04"], cap=300, role="oracle-validation",
@@ -165,13 +165,13 @@ for n in ("sq144", "sq132", "sq120", "sq104", "sq64"):
 reg("rs_il_sq10", "ec", ["C06", "C01"], cap=600, bounds="10x10: all data zero except the last codeword (symbolic): error codewords == a*x^k mod g at the interleaved positions", encodes=["errorcode::encode_error", "errorcode::ecc_block"])
 reg("rs_il_r8x32", "ec", ["C06"], cap=1800, tier=T, role="attempt", bounds="8x32: same", encodes=["errorcode::encode_error"])
 for n in ("sq52", "sq64", "sq144"):
-    reg("rs_il_" + n, "ec", ["C06", "C01"], cap=3600, mem_gb=28, tier=T, role="attempt",
+    reg("rs_il_" + n, "ec", ["C06", "C01"], cap=1500, mem_gb=16, tier=T, role="attempt",
         bounds="%s (interleaved blocks): all data codewords zero except the last one of every block (symbolic)" % n, encodes=["errorcode::encode_error", "errorcode::ecc_block"])
 
 # --------------------------------------------------------------------------- Reed-Solomon decoder (C03, C09, C05)
 reg("synd_eval", "ecdec", ["C09", "C03", "C06"], profiles=["rel"], cap=900, bounds="4 symbolic codewords, 3 syndromes == Horner at 2^1..2^3 in shift-xor arithmetic", encodes=["decoding::primitive_element_evaluation"])
 reg("chien_lin", "ecdec", ["C05", "C03", "C09"], profiles=["dev", "rel"], cap=600, bounds="linear polynomials: both coefficients symbolic, symbolic probe element: exactly the root set, no division by zero", encodes=["decoding::chien_search"])
-reg("chien_quad", "ecdec", ["C03", "C09"], cap=3600, mem_gb=20, role="attempt", tier=T, bounds="three symbolic coefficients, leading != 0; full 255-step search", encodes=["decoding::chien_search"])
+reg("chien_quad", "ecdec", ["C03", "C09"], cap=1500, mem_gb=12, role="attempt", tier=T, bounds="three symbolic coefficients, leading != 0; full 255-step search", encodes=["decoding::chien_search"])
 LD = ["syndrome_based::find_inv_error_locations_levinson_durbin"]
 for n in ("k2_z0", "k2_z1", "k3_z0", "k3_z1", "k3_z2", "k4_z0", "k4_z1", "k4_z2", "k4_z3", "k5_z0", "k5_z0_ff", "k5_z1", "k5_z2", "k5_z3", "k5_z4"):
     reg("ld_np_" + n, "synd", ["C05"], profiles=["rel"], cap=900,
@@ -180,11 +180,11 @@ for n in ("k6_z0", "k6_z1", "k6_z2", "k7_z0", "k7_z1", "k7_z2", "k7_z3"):
     reg("ld_np_" + n, "synd", ["C05"], profiles=["rel"], tier=T, cap=1800, role="attempt", bounds="same, %s" % n, encodes=LD)
 for n, tier, role in (("k2_z0", Q, "lemma"), ("k3_z0", Q, "lemma"), ("k4_z1", Q, "lemma"), ("k5_z1", Q, "lemma"), ("k7_z2", T, "lemma"),
                       ("k4_z0", T, "attempt"), ("k5_z0", T, "attempt"), ("k6_z0", T, "attempt"), ("k6_z1", T, "attempt"), ("k6_z2", T, "attempt")):
-    reg("ld_ct_" + n, "synd", ["C09"], profiles=["rel"], tier=tier, role=role, cap=900 if tier == Q else 3600,
+    reg("ld_ct_" + n, "synd", ["C09"], profiles=["rel"], tier=tier, role=role, cap=900 if tier == Q else 2400,
         bounds="Levinson-Durbin, %s: Ok(w) satisfies rows 0..t-1 of the Hankel system (the contract decode_gen relies on)" % n, encodes=LD)
-reg("ld_scale", "synd", ["C03", "C09"], profiles=["rel"], cap=3600, tier=T, role="attempt", bounds="k=4, scaling factors 2, 0x80, 0xFF, 3 symbolic syndromes: same locator", encodes=LD)
+reg("ld_scale", "synd", ["C03", "C09"], profiles=["rel"], cap=1500, tier=T, role="attempt", bounds="k=4, scaling factors 2, 0x80, 0xFF, 3 symbolic syndromes: same locator", encodes=LD)
 reg("bp_1", "synd", ["C03", "C05"], profiles=["rel"], cap=600, bounds="Bjoerck-Pereyra, 1 locator, arbitrary value", encodes=["syndrome_based::find_error_values_bp"])
-reg("bp_2", "synd", ["C03"], profiles=["rel"], cap=3600, tier=T, role="attempt", bounds="Bjoerck-Pereyra, 2 distinct non-zero locators, arbitrary values", encodes=["syndrome_based::find_error_values_bp"])
+reg("bp_2", "synd", ["C03"], profiles=["rel"], cap=1500, tier=T, role="attempt", bounds="Bjoerck-Pereyra, 2 distinct non-zero locators, arbitrary values", encodes=["syndrome_based::find_error_values_bp"])
 GEN = ["syndrome_based::decode_gen", "decoding::primitive_element_evaluation", "decoding::chien_search", "syndrome_based::find_error_values_bp"] + LD
 TOY = "toy interleaved code (stride 2, 3 data codewords split 2+1 -> unequal blocks, k error codewords per block)"
 for n, tier in (("k2_b0", T), ("k2_b1", T), ("k3_b0", Q), ("k3_b1", Q)):
@@ -194,10 +194,10 @@ for n, tier in (("k3_z1_b0", Q), ("k3_z2_b1", Q), ("k2_z0_b0", T), ("k3_z0_b0", 
     reg("ok_w2_" + n, "synd", ["C09", "C05"], profiles=["rel"], tier=tier, cap=3600, mem_gb=8, qprops=["C09"],
         bounds=TOY + " %s: zero codeword + 2 errors (one beyond capacity) at symbolic positions/values, garbage in the other block, z leading zero syndromes: Ok => codeword" % n, encodes=GEN)
 for n in ("k2_z0_b0", "k2_z1_b1", "k3_z0_b0", "k3_z0_b1", "k3_z1_b0", "k3_z2_b1"):
-    reg("ok_gen_" + n, "synd", ["C09", "C05"], profiles=["rel"], tier=T, role="attempt", cap=3600, mem_gb=20,
+    reg("ok_gen_" + n, "synd", ["C09", "C05"], profiles=["rel"], tier=T, role="attempt", cap=2400, mem_gb=12,
         bounds=TOY + " %s: EVERY byte of the received word symbolic (finder form)" % n, encodes=GEN)
 for n in ("ok_contract_k2", "ok_contract_k3"):
-    reg(n, "synd", ["C09", "C05"], profiles=["rel"], tier=T, role="attempt", cap=3600, mem_gb=20,
+    reg(n, "synd", ["C09", "C05"], profiles=["rel"], tier=T, role="attempt", cap=2400, mem_gb=12,
         bounds=TOY + ": every byte symbolic, locator search replaced by its contract", encodes=GEN[:4])
 reg("dec_glue", "synd", ["C03", "C09", "C05"], profiles=["rel"], cap=1800, mem_gb=8, stubbing=True, qprops=["C03", "C05"],
     bounds="symbolic index over all 48 sizes: decode() calls decode_gen once per block with data[b..], error[b..], stride = blocks, err_len = k (decode_gen replaced by a recording stub)", encodes=["syndrome_based::decode"])
@@ -214,7 +214,7 @@ for n in ("sq10", "sq12", "sq14", "sq16", "sq18", "sq20", "sq22", "sq24", "sq26"
         bounds="closed term, shape %s: the complete traversal vs Annex F (+ DMRE row wrap): every (codeword, bit) on the standard's module, bijection, untouched = fixed corner pattern" % n, encodes=PL)
 reg("pl_cell_any", "place", ["C07"], cap=2400, bounds="symbolic even mapping matrix 6..=132 x 6..=132, symbolic (i, j) inside it: utah / corner1-4 / idx vs the standard's module()", encodes=PL[1:])
 for n, tier in (("sq10", T), ("sq12", T), ("r8x18", T)):
-    reg("pl_rw_" + n, "place", ["C07", "C01"], cap=3600, mem_gb=24, tier=tier, role="attempt", bounds="%s: all codewords of the symbol symbolic: module == bit of the codeword at the standard's position; codewords() inverts" % n,
+    reg("pl_rw_" + n, "place", ["C07", "C01"], cap=1500, mem_gb=16, tier=tier, role="attempt", bounds="%s: all codewords of the symbol symbolic: module == bit of the codeword at the standard's position; codewords() inverts" % n,
         encodes=["placement::MatrixMap::new_with_codewords", "copy_from_codewords", "traverse_mut", "bits_mut", "write_padding", "codewords", "traverse"] + PL)
 for n, tier in (("sq10", Q), ("r8x18", Q), ("r8x32", T), ("r12x36", T), ("r8x64", T), ("sq32", T)):
     reg("fd_render_" + n, "place", ["C08", "C01"], cap=2400, mem_gb=8 if tier == Q else 16, tier=tier, role="attempt" if n in ("sq32", "r12x36", "r8x64") else "lemma",
@@ -222,7 +222,7 @@ for n, tier in (("sq10", Q), ("r8x18", Q), ("r8x32", T), ("r12x36", T), ("r8x64"
         bounds="%s: every mapping-matrix entry symbolic: each module of bitmap() is the standard's finder/clock/alignment value or the entry at the region-offset position" % n, encodes=["placement::MatrixMap::bitmap", "placement::MatrixMap::new"])
 TFB = ["placement::MatrixMap::try_from_bits", "placement::MatrixMap::bitmap"]
 for n in ("sq10", "sq12", "r8x18", "r8x32"):
-    reg("fd_strict_" + n, "place", ["C08", "C05"], cap=3600, mem_gb=24, tier=T, role="attempt", stubbing=True, unwindset=[("btree", 4)],
+    reg("fd_strict_" + n, "place", ["C08", "C05"], cap=1500, mem_gb=16, tier=T, role="attempt", stubbing=True, unwindset=[("btree", 4)],
         bounds="%s: every pixel symbolic; accepted => re-rendering reproduces it; SymbolList::all / block_setup / has_padding_modules stubbed to this one size" % n, encodes=TFB)
 for n in ("r8x32", "sq12", "sq32"):
     reg("fd_flip_" + n, "place", ["C08", "C05"], cap=2400, mem_gb=16, tier=Q if n != "sq32" else T, role="lemma" if n != "sq32" else "attempt", stubbing=True, unwindset=[("btree", 4)],
